@@ -1227,6 +1227,81 @@ func c06InFlight() []Directed {
 			c.Violate("while POST of one route was toggled, a reader saw a method set the route never has: "+bad[0], map[string]any{"toggles": n, "looks": looks.Load(), "more": bad})
 		}
 	}})
+	// the same for the server-wide set: "OPTIONS *" names the methods registered on at least one route. Four routes with
+	// four methods are never touched, POST of a fifth route is toggled: every answer (the Allow header, and what the
+	// CallFunc reads from the node) is one of the two sets the router ever has.
+	out = append(out, Directed{ID: "hot-toggle-server-wide-allow", Run: func(c *Ctx) {
+		n := 30000
+		if c.Tier == "thorough" {
+			n = 600000
+		}
+		for _, trace := range []bool{false, true} {
+			env := mon.NewEnv()
+			opts := []mux.Option{mux.WithLock(true)}
+			legal := map[string]bool{"DELETE,GET,OPTIONS,PATCH,PUT": true, "DELETE,GET,OPTIONS,PATCH,POST,PUT": true}
+			if trace {
+				opts = append(opts, mux.WithTrace(env.NewHnd(mon.KTrace, "")))
+				legal = map[string]bool{"DELETE,GET,OPTIONS,PATCH,PUT,TRACE": true, "DELETE,GET,OPTIONS,PATCH,POST,PUT,TRACE": true}
+			}
+			r := env.NewRouter("wide", opts...)
+			for p, m := range map[string]string{"/a": "GET", "/b": "DELETE", "/c/{id}": "PUT", "/d": "PATCH"} {
+				r.Handle(p, env.NewHnd(mon.KRoute, p), nil, m)
+			}
+			noHead := func(ms []string) string {
+				out := make([]string, 0, len(ms))
+				for _, m := range ms {
+					if m != "HEAD" { // HEAD may or may not be listed
+						out = append(out, m)
+					}
+				}
+				sort.Strings(out)
+				return strings.Join(out, ",")
+			}
+			var stop atomic.Bool
+			var looks atomic.Int64
+			var mu sync.Mutex
+			var bad []string
+			var wg sync.WaitGroup
+			look := func() bool {
+				o := mon.Do(r, mon.Req{Method: "OPTIONS", Path: "*"})
+				looks.Add(1)
+				a, m, h := noHead(mon.AllowSet(o.Header.Get("Allow"))), noHead(o.NodeMethods), noHead(mon.AllowSet(o.NodeAllow))
+				if o.Status != 200 || !legal[a] || !legal[m] || !legal[h] {
+					mu.Lock()
+					if len(bad) < 5 {
+						bad = append(bad, fmt.Sprintf("status %d, Allow header %q, Node().Methods() %q, Node().AllowHeader() %q", o.Status, a, m, h))
+					}
+					mu.Unlock()
+					return false
+				}
+				return true
+			}
+			for g := 0; g < 8; g++ {
+				wg.Add(1)
+				go func() {
+					defer wg.Done()
+					for !stop.Load() && look() {
+					}
+				}()
+			}
+			for i := 0; i < n; i++ {
+				r.Handle("/t", env.NewHnd(mon.KRoute, "/t"), nil, "POST")
+				if i%3 == 0 {
+					r.Remove("/t")
+				} else {
+					r.Remove("/t", "POST")
+				}
+			}
+			stop.Store(true)
+			wg.Wait()
+			c.EvalN(int(looks.Load()))
+			c.ClassN("hot_toggle_server_wide_allow_looked_at", int(looks.Load()))
+			if len(bad) > 0 {
+				c.Violate("while POST of one route was toggled, OPTIONS * named a method set the router never has: "+bad[0], map[string]any{"toggles": n, "with_trace": trace, "looks": looks.Load(), "more": bad})
+				return
+			}
+		}
+	}})
 	for _, sc := range scens {
 		sc := sc
 		out = append(out, Directed{ID: sc.id, Run: func(c *Ctx) {
